@@ -189,6 +189,17 @@ impl<'tcx> Cx<'tcx> {
                     }
                 }
                 if !done {
+                    if matches!(ty.kind(), ty::Array(..) | ty::Tuple(..)) {
+                        if let Some(d) = self.tcx.try_destructure_mir_constant_for_user_output(other, ty) {
+                            if d.fields.len() <= 256 {
+                                let fs: Vec<String> = d.fields.iter().map(|(fv, fty)| self.const_value_json(*fv, *fty)).collect();
+                                let _ = write!(s, ",\"elems\":[{}]", fs.join(","));
+                                done = true;
+                            }
+                        }
+                    }
+                }
+                if !done {
                     let _ = write!(s, ",\"other\":{}", esc(&format!("{:?}", other).chars().take(80).collect::<String>()));
                 }
             }
@@ -203,7 +214,19 @@ impl<'tcx> Cx<'tcx> {
         let mut s = format!("{{\"k\":\"const\",\"ty\":{}", esc(&self.ty(ty)));
         match v {
             ConstValue::Scalar(sc) => {
-                if let Ok(i) = sc.try_to_scalar_int() {
+                if let rustc_middle::mir::interpret::Scalar::Ptr(ptr, _) = sc {
+                    let (prov, _off) = ptr.prov_and_relative_offset();
+                    if let rustc_middle::mir::interpret::GlobalAlloc::Function { instance } = self.tcx.global_alloc(prov.alloc_id()) {
+                        let _ = write!(s, ",\"fn\":{}", esc(&self.path(instance.def_id())));
+                        if let Some(t0) = instance.args.types().next() {
+                            if let ty::Closure(cd, _) = t0.kind() {
+                                let _ = write!(s, ",\"closure\":{}", esc(&self.path(*cd)));
+                            }
+                        }
+                    } else {
+                        let _ = write!(s, ",\"ptr\":true");
+                    }
+                } else if let Ok(i) = sc.try_to_scalar_int() {
                     let bits = i.to_bits(i.size());
                     if ty.is_floating_point() && i.size().bytes() == 8 {
                         let f = f64::from_bits(bits as u64);
@@ -233,6 +256,17 @@ impl<'tcx> Cx<'tcx> {
                             let fs: Vec<String> = d.fields.iter().map(|(fv, fty)| self.const_value_json(*fv, *fty)).collect();
                             let _ = write!(s, ",\"variant\":{},\"vidx\":{},\"fields\":[{}]", esc(&vv.name.to_string()), vi.as_usize(), fs.join(","));
                             done = true;
+                        }
+                    }
+                }
+                if !done {
+                    if matches!(ty.kind(), ty::Array(..) | ty::Tuple(..)) {
+                        if let Some(d) = self.tcx.try_destructure_mir_constant_for_user_output(other, ty) {
+                            if d.fields.len() <= 256 {
+                                let fs: Vec<String> = d.fields.iter().map(|(fv, fty)| self.const_value_json(*fv, *fty)).collect();
+                                let _ = write!(s, ",\"elems\":[{}]", fs.join(","));
+                                done = true;
+                            }
                         }
                     }
                 }
